@@ -128,6 +128,44 @@ Proof. unfold header_size. destruct p; repeat case_if; lia. Qed.
 Lemma header_size_udp b0 : header_size UDP b0 = 4.
 Proof. reflexivity. Qed.
 
+Lemma ix_body_safe buf hs ty code mid tkl :
+  wfb buf -> 2 <= hs <= len buf -> 0 <= tkl ->
+  ix_good (ix_body true buf hs ty code mid tkl) (fun _ => True).
+Proof.
+  intros W Hhs Htkl. unfold ix_body.
+  assert (T : ix_good
+    (if tkl <? 13 then IxOk (tkl, 0)
+     else if tkl =? 13
+          then if true && (len buf - hs <? 1) then IxRej
+               else t0 <- ix_rd buf hs;; IxOk (t0 + 13 + 1, 1)
+          else if tkl =? 14
+               then if true && (len buf - hs <? 2) then IxRej
+                    else t0 <- ix_rd buf hs;; t1 <- ix_rd buf (hs + 1);;
+                         IxOk (t0 * 256 + t1 + 269 + 2, 2)
+               else IxOk (0, 0)) (fun r => 0 <= fst r)).
+  { destruct (tkl <? 13); [ixg; lia|].
+    destruct (tkl =? 13).
+    - cbn [andb]. destruct (len buf - hs <? 1) eqn:E1; [exact I|].
+      rd_ok buf hs t0 Ht0. destruct (ix_rd_byte _ _ _ W Ht0) as [Bt _]. unfold is_byte in Bt.
+      ixg. lia.
+    - destruct (tkl =? 14); [|ixg; lia].
+      cbn [andb]. destruct (len buf - hs <? 2) eqn:E2; [exact I|].
+      rd_ok buf hs t0 Ht0. rd_ok buf (hs + 1) t1 Ht1.
+      destruct (ix_rd_byte _ _ _ W Ht0) as [Bt _]. destruct (ix_rd_byte _ _ _ W Ht1) as [Bt1 _].
+      unfold is_byte in *. ixg. lia. }
+  match goal with |- ix_good (ix_bind ?m _) _ => destruct m as [[etl ext]| | |] end;
+    ixg_in T; try contradiction; [|exact I]. cbn [ix_bind].
+  destruct ((len buf - hs <? etl) || (tkl =? 15)) eqn:Ee; [exact I|].
+  destruct ((code =? 0) && _); [exact I|].
+  destruct (code =? 0); [exact I|].
+  pose proof (ix_opts_spec buf code (Z.to_nat (len buf - hs - etl)) (hs + etl) (len buf - hs - etl)
+                0 true W ltac:(lia) ltac:(lia) ltac:(lia) ltac:(lia)) as O.
+  destruct (ix_opts (Z.to_nat (len buf - hs - etl)) buf code (hs + etl) (len buf - hs - etl) 0 true)
+    as [[[[os o] e] g]| | |]; ixg_in O; try contradiction; [|exact I].
+  cbn [ix_bind]. destruct (negb g); [exact I|].
+  destruct (0 <? e); [destruct (e - 1 =? 0)|]; exact I.
+Qed.
+
 (* C02, parser part: for every byte string and every framing, the repaired parser touches only
    the bytes it was given and terminates (with accept or reject) *)
 Theorem ix_parse_safe p buf :
@@ -155,37 +193,7 @@ Proof.
     - rd_ok buf (hs - 1) c Hc. exact I. }
   match goal with |- ix_good (ix_bind ?m _) _ => destruct m as [[[ty code] mid]| | |] end;
     ixg_in F; try contradiction; [|exact I]. cbn [ix_bind]. clear F.
-  assert (T : ix_good
-    (if b0 mod 16 <? 13 then IxOk (b0 mod 16, 0)
-     else if b0 mod 16 =? 13
-          then if true && (len buf - hs <? 1) then IxRej
-               else t0 <- ix_rd buf hs;; IxOk (t0 + 13 + 1, 1)
-          else if b0 mod 16 =? 14
-               then if true && (len buf - hs <? 2) then IxRej
-                    else t0 <- ix_rd buf hs;; t1 <- ix_rd buf (hs + 1);;
-                         IxOk (t0 * 256 + t1 + 269 + 2, 2)
-               else IxOk (0, 0)) (fun r => 0 <= fst r)).
-  { destruct (b0 mod 16 <? 13); [ixg; lia|].
-    destruct (b0 mod 16 =? 13).
-    - cbn [andb]. destruct (len buf - hs <? 1) eqn:E1; [exact I|].
-      rd_ok buf hs t0 Ht0. destruct (ix_rd_byte _ _ _ W Ht0) as [Bt _]. unfold is_byte in Bt.
-      ixg. lia.
-    - destruct (b0 mod 16 =? 14); [|ixg; lia].
-      cbn [andb]. destruct (len buf - hs <? 2) eqn:E2; [exact I|].
-      rd_ok buf hs t0 Ht0. rd_ok buf (hs + 1) t1 Ht1.
-      destruct (ix_rd_byte _ _ _ W Ht0) as [Bt _]. destruct (ix_rd_byte _ _ _ W Ht1) as [Bt1 _].
-      unfold is_byte in *. ixg. lia. }
-  match goal with |- ix_good (ix_bind ?m _) _ => destruct m as [[etl ext]| | |] end;
-    ixg_in T; try contradiction; [|exact I]. cbn [ix_bind].
-  destruct ((len buf - hs <? etl) || (b0 mod 16 =? 15)) eqn:Ee; [exact I|].
-  destruct ((code =? 0) && _); [exact I|].
-  destruct (code =? 0); [exact I|].
-  pose proof (ix_opts_spec buf code (length buf) (hs + etl) (len buf - hs - etl) 0 true W
-                ltac:(lia) ltac:(lia) ltac:(lia) ltac:(unfold len in *; lia)) as O.
-  destruct (ix_opts (length buf) buf code (hs + etl) (len buf - hs - etl) 0 true)
-    as [[[[os o] e] g]| | |]; ixg_in O; try contradiction; [|exact I].
-  cbn [ix_bind]. destruct (negb g); [exact I|].
-  destruct (0 <? e); [destruct (e - 1 =? 0)|]; exact I.
+  apply ix_body_safe; [assumption | lia | lia].
 Qed.
 
 (* the code as found reads the extended-token length byte of a datagram that ends right after
